@@ -12,6 +12,7 @@ from __future__ import annotations
 
 from .. import nf
 from ..model import AnalysisError
+from ..symeval import Env
 from ..values import Buf, DictV, ExtObj, FuncV, Inst, Num, StrV, TupV, Vec
 from .common import FCP, FP, RES, interp, returns
 
@@ -21,6 +22,13 @@ KEYS = {"tau", "M", "p_initial"}
 
 def pval(k):
     return nf.fn(".value", nf.fn("[]", nf.sym("params"), nf.sym(repr(k))))
+
+
+def _is_default(it, ofi, odef, name, v):
+    try:
+        return it.to_nf(v) == it.to_nf(it.eval(odef[name], Env(None, ofi.module, None)))
+    except AnalysisError:
+        return False
 
 
 def check(ctx):
@@ -103,17 +111,30 @@ def check(ctx):
         oku = isinstance(uf, FuncV) and uf.info.qualname == q
         ctx.check(oku, "C18-c", qf + ":objective wired " + tag, where, "the minimiser minimises the library's _obj_function", signature="userfcn")
         # bind positional and keyword extras to the objective's own parameter names (after `params`)
-        names = P.func(q).params[1:]
+        ofi = P.func(q)
+        odef = ofi.defaults()
+        # the data parameters (no default) must all be bound; an optional parameter of the objective may be
+        # bound too, provided the value handed over is its default (the objective then computes what it did)
+        names = [n_ for n_ in ofi.params[1:] if n_ not in odef]
+        optional = [n_ for n_ in ofi.params[1:] + ofi.kwonly if n_ in odef]
         binding, extra = {}, []
         fa, fk = a.get("fcn_args"), a.get("fcn_kws")
         if isinstance(fa, TupV):
-            for nme, v in zip(names, fa.items):
+            for nme, v in zip(ofi.params[1:], fa.items):
+                if nme in optional:
+                    if not _is_default(it2, ofi, odef, nme, v):
+                        extra.append(f"{nme} (not the objective's default)")
+                    continue
                 binding[nme] = v
-            extra += ["positional"] * max(0, len(fa.items) - len(names))
+            extra += ["positional"] * max(0, len(fa.items) - len(ofi.params[1:]))
         elif fa is not None and type(fa).__name__ != "NoneV":
             extra.append("fcn_args is not a tuple")
         if isinstance(fk, DictV) and not fk.fallback:
             for k, v in fk.items.items():
+                if k in optional and k not in binding:
+                    if not _is_default(it2, ofi, odef, k, v):
+                        extra.append(f"{k} (not the objective's default)")
+                    continue
                 if k in binding or k not in names:
                     extra.append(k)
                 binding[k] = v
